@@ -86,7 +86,10 @@ Record shared := {
   sh_defines : list (string * list string);
   sh_content : list (string * list string * option (string * bool));   (* (section, tokens, conditional open when read) *)
   sh_blocks : list (list string);                 (* molecule-type blocks handed to read_itp *)
-  sh_mols : list (string * string)                (* instantiated [molecules] entries *)
+  sh_mols : list (string * string)                (* [molecules] entries in the order they are read.  Every director keeps its own
+                                                     list and hands it to the director of the including file when it finishes
+                                                     (parent.molecules.extend), so the entries of the whole include tree form one
+                                                     list in textual order; the model keeps that one list *)
 }.
 Definition sh_empty : shared :=
   {| sh_defaults := []; sh_defines := []; sh_content := []; sh_blocks := []; sh_mols := [] |}.
@@ -96,7 +99,6 @@ Record dstate := {
   d_meta : option (string * bool);                (* (tag, true = ifdef / false = ifndef) *)
   d_itp : option (list string);                   (* None until the first [ moleculetype ] *)
   d_itps : list (list string);
-  d_mols : list (string * string);
   d_sh : shared
 }.
 
@@ -112,11 +114,11 @@ Definition itp_nonempty (s : dstate) : bool := match d_itp s with Some (_ :: _) 
 Definition itp_append (s : dstate) (line : string) : dstate :=
   {| d_sec := d_sec s; d_meta := d_meta s;
      d_itp := match d_itp s with Some l => Some (l ++ [line])%list | None => Some [line] end;
-     d_itps := d_itps s; d_mols := d_mols s; d_sh := d_sh s |}.
+     d_itps := d_itps s; d_sh := d_sh s |}.
 Definition with_meta (s : dstate) (m : option (string * bool)) : dstate :=
-  {| d_sec := d_sec s; d_meta := m; d_itp := d_itp s; d_itps := d_itps s; d_mols := d_mols s; d_sh := d_sh s |}.
+  {| d_sec := d_sec s; d_meta := m; d_itp := d_itp s; d_itps := d_itps s; d_sh := d_sh s |}.
 Definition with_sh (s : dstate) (sh : shared) : dstate :=
-  {| d_sec := d_sec s; d_meta := d_meta s; d_itp := d_itp s; d_itps := d_itps s; d_mols := d_mols s; d_sh := sh |}.
+  {| d_sec := d_sec s; d_meta := d_meta s; d_itp := d_itp s; d_itps := d_itps s; d_sh := sh |}.
 
 (* is the enclosing conditional (if any) active for the macros defined so far *)
 Definition active (s : dstate) : bool :=
@@ -150,12 +152,12 @@ Section Director.
 
   Definition do_header (s : dstate) (line : string) : dstate :=
     let sec := settle (S (length (d_sec s))) (d_sec s ++ [section_name line])%list in
-    let s1 := {| d_sec := sec; d_meta := d_meta s; d_itp := d_itp s; d_itps := d_itps s; d_mols := d_mols s; d_sh := d_sh s |} in
+    let s1 := {| d_sec := sec; d_meta := d_meta s; d_itp := d_itp s; d_itps := d_itps s; d_sh := d_sh s |} in
     let s2 := if slist_eqb sec ["moleculetype"] then
                 {| d_sec := sec; d_meta := d_meta s1;
                    d_itp := Some [];
                    d_itps := if itp_nonempty s1 then (d_itps s1 ++ [match d_itp s1 with Some l => l | None => [] end])%list else d_itps s1;
-                   d_mols := d_mols s1; d_sh := d_sh s1 |}
+                   d_sh := d_sh s1 |}
               else s1 in
     match d_itp s2 with Some _ => itp_append s2 line | None => s2 end.
 
@@ -173,8 +175,9 @@ Section Director.
       end
     | ["molecules"] =>
       match tokens line with
-      | [n; c] => Ok {| d_sec := d_sec s; d_meta := d_meta s; d_itp := d_itp s; d_itps := d_itps s;
-                        d_mols := (d_mols s ++ [(n, c)])%list; d_sh := d_sh s |}
+      | [n; c] => let sh := d_sh s in
+                  Ok (with_sh s {| sh_defaults := sh_defaults sh; sh_defines := sh_defines sh; sh_content := sh_content sh;
+                                   sh_blocks := sh_blocks sh; sh_mols := (sh_mols sh ++ [(n, c)])%list |})
       | _ => Err ErrIO
       end
     | [name] =>
@@ -200,8 +203,8 @@ Section Director.
       else block_ok r open_
     end.
 
-  (* finalize of one director *)
-  Definition finalize (s : dstate) : result shared :=
+  (* finalize of one director; only the director of the outermost file (top = true) instantiates the molecule list *)
+  Definition finalize (top : bool) (s : dstate) : result shared :=
     let itps := if itp_nonempty s then (d_itps s ++ [match d_itp s with Some l => l | None => [] end])%list else d_itps s in
     match d_meta s with
     | Some _ => Err ErrIO
@@ -210,14 +213,14 @@ Section Director.
       let blocks := (sh_blocks sh ++ itps)%list in
       let names := flat_map (fun b => match block_name b with Some n => [n] | None => [] end) blocks in
       if negb (forallb (fun b => block_ok b false) itps) then Err ErrIO else
-      if forallb (fun nc => existsb (String.eqb (fst nc)) names) (d_mols s)
+      if negb top || forallb (fun nc => existsb (String.eqb (fst nc)) names) (sh_mols sh)
       then Ok {| sh_defaults := sh_defaults sh; sh_defines := sh_defines sh; sh_content := sh_content sh;
-                 sh_blocks := blocks; sh_mols := (sh_mols sh ++ d_mols s)%list |}
+                 sh_blocks := blocks; sh_mols := sh_mols sh |}
       else Err ErrKey
     end.
 
   Definition fresh (sh : shared) : dstate :=
-    {| d_sec := []; d_meta := None; d_itp := None; d_itps := []; d_mols := []; d_sh := sh |}.
+    {| d_sec := []; d_meta := None; d_itp := None; d_itps := []; d_sh := sh |}.
 
   (* one cleaned, non-empty line; `rd` reads an included file (a whole new director) *)
   Definition do_line (rd : string -> list string -> shared -> result shared) (cwdir : string)
@@ -286,9 +289,16 @@ Section Director.
     | O => Err ErrFuel
     | S f =>
       match do_lines (read f) cwdir (fresh sh) ls with
-      | Ok s => finalize s
+      | Ok s => finalize false s
       | Err e => Err e
       end
+    end.
+
+  (* the outermost file *)
+  Definition read_top (fuel : nat) (cwdir : string) (ls : list string) (sh : shared) : result shared :=
+    match do_lines (read fuel) cwdir (fresh sh) ls with
+    | Ok s => finalize true s
+    | Err e => Err e
     end.
 End Director.
 
